@@ -13,7 +13,7 @@ def main():
     tier = vlib.tier_arg(sys.argv)
     rep = vlib.Report("C04", tier, "model_checking")
     binary = build_broker()
-    U = "all interleavings (unbounded preemptions, sleep-set reduction)"
+    U = "all interleavings up to Mazurkiewicz equivalence (unbounded preemptions; DPOR + sleep sets)"
     if tier == "quick":
         passes = [
             {"harness": "c04", "cfg": {"P": "1", "C": "1"}, "label": "1 proxy x 1 client: " + U},
